@@ -438,3 +438,13 @@ package bug
 //@   ensures [member-by-id] result == (exists k int :: { snap.Actors[k] } 0 <= k && k < len(snap.Actors) && snap.Actors[k].Id() == id)
 //@   loop 1
 //@     invariant forall k int :: { snap.Actors[k] } 0 <= k && k <= rangeindex ==> snap.Actors[k].Id() != id
+
+// A bug is accepted (C07: the gate a remote bug passes before it becomes local; C10: a valid sequence) only when its
+// very first operation is the create operation and no later operation is one.
+//@ func (*Bug).Validate
+//@   props C07 C10
+//@   opt assume_pre=(*Entity).Validate
+//@   check [the-first-operation-is-the-create] result == nil ==> firstOp != nil && firstOp.Type() == CreateOp
+//@   loop 1
+//@     invariant firstOp != nil && firstOp.Type() == CreateOp
+//@     invariant [no-create-after-the-first] forall k int :: { rangeslice[k] } 1 <= k && k <= rangeindex ==> rangeslice[k].Type() != CreateOp
